@@ -69,6 +69,11 @@ def smax [LT α] [DecidableLT α] (a b : α) : α := if a < b then b else a
 /-- `Float::min a b = if b < a then b else a`. -/
 def smin [LT α] [DecidableLT α] (a b : α) : α := if b < a then b else a
 
+/-- the clamp `InnerSpace::angle` applies before `acos` (as repaired, DESIGN §0.3): rounding can leave the
+cosine of (anti)parallel arguments just outside `[-1, 1]` -/
+def clampUnit [LT α] [DecidableLT α] [Neg α] [OfNat α 1] (c : α) : α :=
+  if 1 < c then 1 else if c < -1 then -1 else c
+
 /-- `ulps_eq!(a, b)` with default tolerances. -/
 def ulpsEqD [Approx α] (a b : α) : Bool :=
   Approx.ulpsEq a b (Approx.eps : α) (Approx.maxUlps α)
